@@ -1,9 +1,12 @@
 package props
 
 import (
+	"context"
 	"fmt"
 	"net/url"
 	"strings"
+	"sync"
+	"sync/atomic"
 	"testing"
 	"time"
 
@@ -50,7 +53,7 @@ var c15ClientDefects = []string{"iss-other", "iss-absent", "sub-other", "sub-abs
 
 func buildClientAssertion(rt *rapid.T, sp assertionSpec, jti string, usedJTI string, sendClientID bool) (string, []string) {
 	now := h.Now()
-	life := time.Duration(rapid.SampledFrom([]int{60, 300, 300, 600, 3600}).Draw(rt, "assertionLifetime")) * time.Second
+	life := time.Duration(rapid.SampledFrom([]int{60, 300, 300, 600, 3600, 7200, 3 * 86400}).Draw(rt, "assertionLifetime")) * time.Second
 	claims := map[string]interface{}{"iss": "jwt-client", "sub": "jwt-client", "aud": h.TokenURL, "jti": jti, "exp": now.Add(life).Unix(), "iat": now.Unix()}
 	if rapid.Bool().Draw(rt, "audAsList") {
 		claims["aud"] = []string{"https://elsewhere.example", h.TokenURL}
@@ -192,7 +195,10 @@ func TestC15_ClientAssertions(t *testing.T) {
 	rapid.Check(t, func(rt *rapid.T) {
 		h.ClockReset()
 		store := rapid.SampledFrom([]string{"mem", "tx"}).Draw(rt, "store")
-		w, _ := c15World(store, nil)
+		// the bound on RFC 7523 *grants* is not a bound on client assertions: a long-lived assertion's jti has to be
+		// remembered for as long as the assertion is honoured, whatever that setting says
+		maxDur := time.Duration(rapid.SampledFrom([]int{0, 0, 120, 3600}).Draw(rt, "jwtBearerMaxDuration")) * time.Second
+		w, _ := c15World(store, func(c *fosite.Config) { c.GrantTypeJWTBearerMaxDuration = maxDur })
 		// the same assertion rules hold at every endpoint that authenticates clients
 		presentAt := func(where, assertion string, sendClientID bool) (bool, h.ErrInfo) {
 			form := url.Values{"client_assertion_type": {assertionType}, "client_assertion": {assertion}}
@@ -241,7 +247,7 @@ func TestC15_ClientAssertions(t *testing.T) {
 			action := rapid.SampledFrom([]string{"new", "new", "new", "replay-same-assertion", "advance"}).Draw(rt, "action")
 			switch action {
 			case "advance":
-				d := time.Duration(rapid.SampledFrom([]int{1, 60, 299, 301, 600, 86400}).Draw(rt, "secs")) * time.Second
+				d := time.Duration(rapid.SampledFrom([]int{1, 60, 121, 299, 301, 600, 3601, 86400, 86460}).Draw(rt, "secs")) * time.Second
 				h.Advance(d)
 				log = append(log, fmt.Sprintf("advance %v", d))
 				shape = append(shape, "advance")
@@ -495,6 +501,78 @@ func TestC15_JWTBearer(t *testing.T) {
 		}
 		h.Case("C15/bearer/"+strings.Join(shape, ";"), nontrivial, func() any { return map[string]any{"kind": "jwt_bearer", "store": store, "history": log} })
 	})
+	h.MarkCompleted()
+}
+
+// TestC15_ConcurrentPresentations: the schedule engine below owns the order of *storage calls*; what happens inside
+// one storage call (a lookup and an insert under two separate lock sections, say) is below its resolution. Here the
+// same assertion is presented by several goroutines at the same instant, through the provider and directly at the
+// store, for many rounds with real parallelism. The oracle can not raise a false alarm: whatever the scheduler does,
+// at most one presentation of a jti may be accepted.
+func TestC15_ConcurrentPresentations(t *testing.T) {
+	h.SetProperty("C15")
+	selfTest(t)
+	rounds := 1500
+	if Tier() == "thorough" {
+		rounds = 30000
+	}
+	si, _ := shardInfo()
+	const nG = 6
+	ctx := context.Background()
+	for _, store := range []string{"mem"} {
+		h.ClockReset()
+		w, _ := c15World(store, nil)
+		for r := 0; r < rounds; r++ {
+			kind := []string{"client_assertion", "jwt_bearer", "store"}[(r+si)%3]
+			jti := fmt.Sprintf("conc-%d-%d", si, r)
+			now := h.Now()
+			var present func() bool
+			switch kind {
+			case "client_assertion":
+				a := h.MustSignJWT(h.RSAKey(1), "RS256", "kid-1", map[string]interface{}{"iss": "jwt-client", "sub": "jwt-client", "aud": h.TokenURL, "jti": jti, "exp": now.Add(300e9).Unix(), "iat": now.Unix()})
+				present = func() bool {
+					tr := w.Token(url.Values{"grant_type": {"client_credentials"}, "scope": {"a"}, "client_assertion_type": {assertionType}, "client_assertion": {a}}, h.Auth{}, h.TokenOpts{})
+					return tr.OK() || tr.Access != ""
+				}
+			case "jwt_bearer":
+				a := h.MustSignJWT(h.RSAKey(1), "RS256", "bk-1", map[string]interface{}{"iss": "trusted-issuer", "sub": "user-1", "aud": []string{h.TokenURL}, "jti": jti, "exp": now.Add(300e9).Unix(), "iat": now.Unix()})
+				present = func() bool {
+					tr := w.Token(url.Values{"grant_type": {jwtBearerGrant}, "assertion": {a}, "scope": {"a"}}, w.BasicFor("plain"), h.TokenOpts{Session: h.NewSess("")})
+					return tr.OK() || tr.Access != ""
+				}
+			default:
+				present = func() bool { return w.Mem.SetClientAssertionJWT(ctx, jti, now.Add(time.Hour)) == nil }
+			}
+			var wins int64
+			var start, done sync.WaitGroup
+			start.Add(1)
+			for g := 0; g < nG; g++ {
+				done.Add(1)
+				go func() {
+					defer done.Done()
+					start.Wait()
+					if present() {
+						atomic.AddInt64(&wins, 1)
+					}
+				}()
+			}
+			start.Done()
+			done.Wait()
+			if wins > 1 {
+				h.Violate(t, "C15/concurrent/jti-accepted-twice", "%d simultaneous presentations of one %s (jti %s): %d were accepted (round %d)", nG, kind, jti, wins, r)
+			}
+			if wins == 0 {
+				t.Fatalf("VERIF-INFRA: no presentation of a fresh %s was accepted (round %d)", kind, r)
+			}
+		}
+		h.CaseN(rounds)
+	}
+	for _, k := range []string{"client_assertion", "jwt_bearer", "store"} {
+		k := k
+		h.Case("C15/concurrent/"+k, true, func() any {
+			return map[string]any{"kind": "concurrent presentations", "what": k, "goroutines": nG, "rounds_per_shard": rounds}
+		})
+	}
 	h.MarkCompleted()
 }
 
